@@ -557,6 +557,7 @@ func oracle(c *hc.Ctx, all []call, calls []call, grads []canvas.Gradient, rp, rs
 	oraclePDF(c, all, grads, rp)
 	// PostScript: the default user space unit is 1/72 inch; the program must say otherwise
 	sin := newPSInterp()
+	sin.run(rs.all[:len(rs.all)-totalLen(rs.segs)]) // prologue: procedure definitions, possibly a unit scale
 	xs := &cmpCtx{c: c, backend: "ps", unit: 1, grads: grads, gradName: map[string]canvas.Gradient{}, colTol: 1.01 / 255, noAlpha: true}
 	unitReported := false
 	for i, cl := range calls {
@@ -592,6 +593,7 @@ func oracle(c *hc.Ctx, all []call, calls []call, grads []canvas.Gradient, rp, rs
 	}
 	// SVG
 	xv := &cmpCtx{c: c, backend: "svg", unit: 1, grads: grads, gradName: map[string]canvas.Gradient{}, colTol: 1.01 / 255}
+	svgIDs := map[string]bool{} // ids of the gradient definitions written so far
 	for i, cl := range calls {
 		if rv.panics[i] != "" {
 			report(c, disc{"svg:panic", rv.panics[i]}, calls, grads, i, nil)
@@ -600,6 +602,25 @@ func oracle(c *hc.Ctx, all []call, calls []call, grads []canvas.Gradient, rp, rs
 		c.Evals++
 		for _, d := range xv.compare(cl, runSVG(rv.segs[i], pageH)) {
 			report(c, d, calls, grads, i, rv.segs[i])
+		}
+		// every url(#id) must refer to a <defs> written before the referring element, ids are unique
+		if es, err := parseSVGElems(rv.segs[i]); err == nil {
+			for _, e := range es {
+				if e.name == "defs" {
+					if svgIDs[e.defID] {
+						report(c, disc{"svg:duplicate-id", "gradient id " + e.defID + " defined twice"}, calls, grads, i, rv.segs[i])
+					}
+					svgIDs[e.defID] = true
+					continue
+				}
+				for _, a := range e.attrs {
+					for _, part := range strings.Split(a[1], "url(#")[1:] {
+						if id := part[:strings.IndexByte(part+")", ')')]; !svgIDs[id] {
+							report(c, disc{"svg:undefined-reference", "url(#" + id + ") refers to no gradient definition written so far"}, calls, grads, i, rv.segs[i])
+						}
+					}
+				}
+			}
 		}
 	}
 	checkSVGHeader(c, rv)
